@@ -28,6 +28,7 @@ type c06Op struct {
 	N     int     `json:"n,omitempty"`
 	Local bool    `json:"local,omitempty"`
 	Batch bool    `json:"batch,omitempty"` // local publish through AddToBatch + PublishBatch (gossipsub)
+	Near  bool    `json:"near,omitempty"`  // idontwant: name a neighbouring ID (the ID plus a zero byte), not the message's own
 }
 
 type c06Case struct {
@@ -36,6 +37,7 @@ type c06Case struct {
 	D      int     `json:"D"`
 	Direct []int   `json:"direct,omitempty"`
 	Peers  int     `json:"peers"`
+	TTL    int     `json:"fanout_ttl_s,omitempty"` // configured FanoutTTL in seconds (0: 60)
 	Ops    []c06Op `json:"ops"`
 }
 
@@ -69,6 +71,7 @@ func c06Gen(rt *rapid.T) c06Case {
 	if rapid.IntRange(0, 3).Draw(rt, "join0") > 0 {
 		c.Ops = append(c.Ops, c06Op{Op: "join", T: 0})
 	}
+	c.TTL = rapid.SampledFrom([]int{0, 0, 20, 150}).Draw(rt, "fanoutTTL")
 	n := rapid.IntRange(3, 40).Draw(rt, "nops")
 	kinds := []string{"lpub", "lpub", "lpub", "rpub", "rpub", "rpub", "hb", "hb", "graft", "graft", "prune", "idontwant", "idontwant", "score", "score", "sub", "unsub", "depart", "arrive", "join", "leave", "adddirect", "rmdirect", "adv"}
 	for i := 0; i < n; i++ {
@@ -85,6 +88,7 @@ func c06Gen(rt *rapid.T) c06Case {
 			op.Batch = rapid.IntRange(0, 3).Draw(rt, "batch") == 0
 		case "idontwant":
 			op.N = rapid.IntRange(0, 3).Draw(rt, "ahead") // names the message that will be published N publishes from now
+			op.Near = rapid.IntRange(0, 3).Draw(rt, "near") == 0
 		case "adv":
 			op.N = rapid.SampledFrom([]int{500, 5000, 30000, 61000}).Draw(rt, "ms")
 		case "hb":
@@ -160,6 +164,9 @@ func c06RunInBubble(t *testing.T, c c06Case, res *vfResult) {
 	gp := DefaultGossipSubParams()
 	gp.D, gp.Dlo, gp.Dhi, gp.Dscore, gp.Dout = c.D, 1, c.D+4, 0, 0
 	gp.FanoutTTL = 60 * time.Second
+	if c.TTL > 0 {
+		gp.FanoutTTL = time.Duration(c.TTL) * time.Second // a configured value, not the package default
+	}
 	opts := []Option{WithMessageIdFn(c06ID)}
 	if c.Router == "gossipsub" {
 		opts = append(opts, WithPeerScore(&PeerScoreParams{AppSpecificScore: func(p peer.ID) float64 { return app[p] }, AppSpecificWeight: 1, DecayInterval: time.Hour, DecayToZero: 0.01,
@@ -490,6 +497,12 @@ func c06RunInBubble(t *testing.T, c c06Case, res *vfResult) {
 			var connected bool
 			n.eval(func() { _, connected = n.gs.peers[pid] })
 			data := dataOf(pubNo + 1 + op.N)
+			if op.Near {
+				// another ID, one zero byte longer: says nothing about the message itself
+				n.recv(op.P, &RPC{RPC: pb.RPC{Control: &pb.ControlMessage{Idontwant: []*pb.ControlIDontWant{{MessageIDs: []string{"id:" + data + "\x00"}}}}}})
+				res.label("idontwant-for-a-neighbouring-id")
+				continue
+			}
 			n.recv(op.P, &RPC{RPC: pb.RPC{Control: &pb.ControlMessage{Idontwant: []*pb.ControlIDontWant{{MessageIDs: []string{"id:" + data}}}}}})
 			_ = connected
 			unwantedTTL[[2]string{string(pid), data}] = gp.IDontWantMessageTTL
